@@ -63,6 +63,11 @@ def _cases(tier, seed):
                 val = _value_for(dest, kind, typ, choices, rnd, adversarial)
                 for fmt in ('toml', 'setupcfg', 'ini'):
                     yield {'dest': dest, 'flag': flag, 'kind': kind, 'value': val, 'fmt': fmt}
+                # the same TOML document written differently: a trailing comment; a literal ('...') string
+                yield {'dest': dest, 'flag': flag, 'kind': kind, 'value': val, 'fmt': 'toml', 'toml_style': 'comment'}
+                if isinstance(val, str) and "'" not in val and '\n' not in val and '\t' not in val and val.isprintable():
+                    yield {'dest': dest, 'flag': flag, 'kind': kind, 'value': val, 'fmt': 'toml', 'toml_style': 'literal'}
+    yield {'dest': 'projectname', 'flag': '--project-name', 'kind': '_StoreAction', 'value': 'C:\\new\\tmp\\cache', 'fmt': 'toml', 'toml_style': 'literal'}
     # unknown key, CLI override, accumulation
     yield {'special': 'ini-rules-in-pydoctor-ini', 'text': "project-name = 'tab\\there'", 'want': 'tab\there'}
     yield {'special': 'ini-rules-in-pydoctor-ini', 'text': 'project-name = 100%%', 'want': '100%'}
@@ -112,10 +117,14 @@ def _needs_quote(s):
     return s != s.strip() or s == '' or s.startswith(('[', '"', "'", '#', ';')) or '\n' in s or '\t' in s or '%' in s
 
 
-def _write(d, fmt, items):
+def _write(d, fmt, items, style=None):
     key = lambda f: f.lstrip('-')    # noqa
     if fmt == 'toml':
-        body = '[tool.pydoctor]\n' + ''.join(f'{key(f)} = {_toml_val(v)}\n' for f, v in items)
+        def tv(v):
+            if style == 'literal' and isinstance(v, str):
+                return "'" + v + "'"
+            return _toml_val(v) + ('   # a comment' if style == 'comment' else '')
+        body = '[tool.pydoctor]\n' + ''.join(f'{key(f)} = {tv(v)}\n' for f, v in items)
         name = 'pyproject.toml'
     else:
         sec = 'tool:pydoctor' if fmt == 'setupcfg' else 'pydoctor'
@@ -207,7 +216,7 @@ def _check(case):
             if isinstance(o, tuple) or o.intersphinx != o2.intersphinx:
                 return {'observed': f'{o if isinstance(o, tuple) else o.intersphinx}', 'required': f'{o2.intersphinx}: repeated options accumulate in order'}
             return None
-        _write(d1, case['fmt'], [(case['flag'], case['value'])])
+        _write(d1, case['fmt'], [(case['flag'], case['value'])], case.get('toml_style'))
         of, wf = _from_args([], d1)
         for f in os.listdir(d1):
             os.unlink(os.path.join(d1, f))
